@@ -22,6 +22,9 @@ import (
 // a deep traversal of cyclic data overflows the Go stack, which is a fatal error no recover catches.
 // The parent sees the worker die (or time out) and records that as the outcome of the case.
 
+// repeatRuns: further executions of every case after the three of oracle (b).
+const repeatRuns = 7
+
 // WRes is everything observed for one case.
 type WRes struct {
 	NewPanic string `json:"new_panic,omitempty"` // NewPlan panicked
@@ -29,11 +32,12 @@ type WRes struct {
 	Simp     string `json:"simp,omitempty"`      // tree text of Plan.Simplify() before execution
 	Str      string `json:"str,omitempty"`       // Plan.String() before execution
 	StrPanic string `json:"str_panic,omitempty"`
-	Run1     string `json:"run1"`           // "<ok|err|panic> <root after>" of the first Execute
-	Err1     string `json:"err1,omitempty"` // error text of run 1
-	Run2     string `json:"run2"`           // the same *Plan executed again on an equal fresh root
-	Fresh    string `json:"fresh"`          // a freshly built plan on an equal fresh root
-	SrcSame  bool   `json:"src_same"`       // $.src after run 1 renders as before
+	Run1     string `json:"run1"`             // "<ok|err|panic> <root after>" of the first Execute
+	Err1     string `json:"err1,omitempty"`   // error text of run 1
+	Run2     string `json:"run2"`             // the same *Plan executed again on an equal fresh root
+	Fresh    string `json:"fresh"`            // a freshly built plan on an equal fresh root
+	Repeat   string `json:"repeat,omitempty"` // the first of repeatRuns further fresh executions that differs from Fresh ("" = all equal)
+	SrcSame  bool   `json:"src_same"`         // $.src after run 1 renders as before
 	SrcAfter string `json:"src_after,omitempty"`
 	Reparse  string `json:"reparse,omitempty"`     // tree text of sen.Parse(Str) ("" when it does not parse)
 	ReparseE string `json:"reparse_err,omitempty"` // parse error
@@ -104,6 +108,15 @@ func runCase(planText, rootText string) *WRes {
 	res.Run2, _ = execOnce(p, freshRoot(rootText))
 	if p2, pan2 := freshPlan(planText); pan2 == "" && p2 != nil {
 		res.Fresh, _ = execOnce(p2, freshRoot(rootText))
+		// determinism is a statement about every run: repeat the execution (fresh plan, fresh equal root);
+		// anything that follows Go's map iteration order shows within a few repetitions
+		for i := 0; i < repeatRuns && res.Repeat == ""; i++ {
+			if pr, panr := freshPlan(planText); panr == "" && pr != nil {
+				if out, _ := execOnce(pr, freshRoot(rootText)); out != res.Fresh {
+					res.Repeat = out
+				}
+			}
+		}
 	}
 	if res.StrPanic == "" {
 		var parsed any
